@@ -12,7 +12,15 @@ import re
 import shutil
 import vcommon as vc
 
-RULE = ("cases drawn from one PRNG (VERIF_SEED), one fresh file each: (sds) 1-3 datasets of rank 1-4, extents 1-5, "
+RULE = ("cases drawn from one PRNG (VERIF_SEED), one fresh file each; files hold several objects (1-4) in varied creation "
+        "order, optionally after 1-2 objects of the other family (shifted refs), and optionally get a LATER session that "
+        "only changes metadata of some objects (SDsetattr / GRsetattr) before every older interface reads them; "
+        "(sds) datasets also carry dimension scales on arbitrary subsets of their dimensions (DFSDsetdimscale with NULL "
+        "for the others / SDsetdimscale), label/unit/format strings and a range, compared through DFSDgetdimscale/"
+        "getdatastrs/getrange and SDgetdimscale/getdatastrs/getrange; SD files hold several record variables with "
+        "different record counts; GR files mix images without a raster-image group (other types, 2/4 components) with "
+        "8/24-bit ones; counts (DFSDndatasets, DFR8nimages, DF24nimages, DFPnpals, SD/GR file info) are compared; "
+        "(sds) 1-4 datasets of rank 1-4, extents 1-5, "
         "every 8/16/32-bit integer, char and float32/64 type in standard, little-endian and native flavour, optional "
         "unlimited first dimension, written by DFSDadddata | SDcreate+SDwritedata | nccreate/ncdimdef/ncvardef/ncvarput "
         "and read by DFSDgetdims/getNT/getdata, SDgetinfo/SDreaddata, ncvarinq/ncvarget, the Vgroup/Vdata records "
@@ -37,8 +45,12 @@ TRUSTED = ["Coq 8.16.1 kernel",
 ASSUMPTIONS = ["host is little-endian; JPEG and IMCOMP images are outside the equality claim (dimensions only)",
                "the older raster calls address an image only through a raster-image group; GR writes one for "
                "8-bit unsigned images of 1 or 3 components",
-               "record variables of one file share one record count (the netCDF-style calls know a single record "
-               "dimension per file and present every record variable with the largest count)",
+               "record variables with different record counts in one file: the netCDF-style calls and the record-dimension "
+               "Vdata know a single record count per file (the largest), so these two views are compared only when the "
+               "counts agree; DFSD, SD and the NDG path are always compared",
+               "metadata direction: the multi-file SD calls keep scales/strings/range in dimension variables and "
+               "attributes which the older NDG description cannot hold; DFSD shows them for DFSD-written datasets only, "
+               "and shows every SD dimension scale as a one-dimensional dataset of its own (it is an SD variable)",
                "bare Raster-8 files (RI8/ID8/IP8 without RIG): a palette stays in effect for the following images "
                "(the 8-bit calls apply it, GR shows it only with the image it was stored with), so generated files "
                "give every image after the first palette its own",
@@ -161,7 +173,13 @@ def gen_rawsds(r):
         ne = 1
         for d in dims:
             ne *= d
-        ds.append({"dims": dims, "unl": False, "nt": nt, "data": rbytes(r, ne * BASES[nt & 255])})
+        d = {"dims": dims, "unl": False, "nt": nt, "data": rbytes(r, ne * BASES[nt & 255]), "scales": [None] * rank,
+             "strs": None, "range": None}
+        if r.random() < 0.6:      # scales record written by the model: any subset of the dimensions
+            for i in range(rank):
+                if r.random() < 0.5:
+                    d["scales"][i] = rbytes(r, dims[i] * BASES[nt & 255])
+        ds.append(d)
     return {"kind": "rawsds", "form": form, "objs": ds}
 
 
@@ -542,7 +560,17 @@ def shrinks(c):
         for i in range(len(objs)):
             d = dict(c)
             d["objs"] = objs[:i] + objs[i + 1:]
+            if c.get("edits"):
+                d["edits"] = [e if e < i else e - 1 for e in c["edits"] if e != i]
             yield d
+    if c.get("edits"):
+        d = dict(c)
+        d["edits"] = []
+        yield d
+    if c.get("pre"):
+        d = dict(c)
+        d["pre"] = 0
+        yield d
     if c["kind"] in ("sds", "rawsds"):
         for i, o in enumerate(objs):
             for j, dim in enumerate(o["dims"]):
@@ -653,7 +681,10 @@ def run(ctx):
         cases.append(("L%d" % i, {"kind": "legacy", "path": p}))
     Rd, Sd, Md, noise = run_cases(ctx, cases, "main")
     stats = {"cases": len(cases), "corpus": ncorpus, "legacy_files": len(leg), "by_kind": {}, "by_writer": {},
-             "values_compared": 0, "number_types": {}, "interlace_pairs": {}, "compressions": {}}
+             "values_compared": 0, "number_types": {}, "interlace_pairs": {}, "compressions": {},
+             "metadata_lines_compared": 0, "datasets_with_scales_on_a_proper_subset": 0, "scale_after_unscaled_dimension": 0,
+             "files_with_differing_record_counts": 0, "later_metadata_sessions": 0, "foreign_objects_first": 0,
+             "gr_files_with_group_less_image_before_group_image": 0, "objects_per_file": {}}
     nviol = 0
     for cid, c in cases:
         R, S = Rd.get(cid, []), Sd.get(cid, [])
@@ -665,7 +696,24 @@ def run(ctx):
             bad, nv = compare_legacy(R)
         else:
             bad, nv = compare(c, R, S)
+        if k in ("sds", "img"):
+            stats["objects_per_file"][str(len(c["objs"]))] = stats["objects_per_file"].get(str(len(c["objs"])), 0) + 1
+            stats["later_metadata_sessions"] += 1 if c.get("edits") else 0
+            stats["foreign_objects_first"] += 1 if c.get("pre") else 0
+        if k == "sds" and len(set(o["dims"][0] for o in c["objs"] if o["unl"])) > 1:
+            stats["files_with_differing_record_counts"] += 1
+        if k == "img" and c["w"] == "gr":
+            rig = [(o["nt"] == 21 and o["nc"] in (1, 3)) for o in c["objs"]]
+            if any((not a) and any(rig[i + 1:]) for i, a in enumerate(rig)):
+                stats["gr_files_with_group_less_image_before_group_image"] += 1
+        stats["metadata_lines_compared"] += sum(1 for l in R if l.startswith(("sdmeta ", "dfsdmeta ")))
         for o in c.get("objs", []):
+            if k in ("sds", "rawsds") and o.get("scales"):
+                sc = [x is not None for x in o["scales"]]
+                if any(sc) and not all(sc):
+                    stats["datasets_with_scales_on_a_proper_subset"] += 1
+                if any((not a) and any(sc[i + 1:]) for i, a in enumerate(sc)):
+                    stats["scale_after_unscaled_dimension"] += 1
             if k == "sds":
                 stats["number_types"][str(o["nt"])] = stats["number_types"].get(str(o["nt"]), 0) + 1
             if k == "img":
@@ -753,6 +801,15 @@ def model_disagreements(c, R, M):
             rd, md = sds_keys(view, R, False), sds_keys("ndgm", M, True)
             if not same(rd, md):
                 bad.append("hdf_read_ndgs model differs from SDgetinfo/SDreaddata on the NDG path: R=%s M=%s" % (str(rd)[:150], str(md)[:150]))
+    if k == "sds" and c["w"] == "dfsd":
+        # the scales record through both readers' models vs SDgetdimscale / DFSDgetdimscale
+        nts = {x[0]: int(x[2 + int(x[1])]) for x in rows("sd", R)}
+        for view, mview, what in (("sdmeta", "scalem", "hdf_read_ndgs scale walk"), ("dfsdmeta", "dscalem", "DFSDIgetndg scales")):
+            rr = sorted((t[3], to_file_order(nts.get(t[1], 0), t[4])) for t in (l.split() for l in R if l.startswith(view + " "))
+                        if t[2] == "scale" and t[4] != "none")
+            mm = sorted((t[2], t[3]) for t in (l.split() for l in M if l.startswith(mview + " ")) if t[3] != "none")
+            if rr != mm:
+                bad.append("%s model differs from the library: R=%s M=%s" % (what, str(rr)[:150], str(mm)[:150]))
     if k in ("img", "legacy"):
         # RIG readers: dimensions, component count, interlace code, and the stored pixels when not compressed
         mr = [x for x in rows("rigm", M)]
